@@ -233,10 +233,15 @@ func checkLifecycleOnce(c *Ctx, runs []*runInfo) {
 				switch {
 				case s == 2:
 					c.ok(rule, key, c.P.instrPos(b.Instrs[len(b.Instrs)-1]), "exactly once")
-				case s&1 != 0:
-					c.fail(rule, key, c.P.instrPos(b.Instrs[len(b.Instrs)-1]), name+" can return without ShutdownInitiated() on "+r.lcPath+": ShuttingDown() stays open, every API call blocks instead of returning ErrNotRunning, parents waiting on Done() are released while the actor still looks alive")
 				default:
-					c.fail(rule, key, c.P.instrPos(b.Instrs[len(b.Instrs)-1]), name+" can call ShutdownInitiated() twice on "+r.lcPath+" before returning: the second call panics")
+					// second opinion with helper inlining (path segments)
+					if okSeg, why := onceBySegments(c, f, r.lcPath); okSeg {
+						c.ok(rule, key, c.P.instrPos(b.Instrs[len(b.Instrs)-1]), "exactly once (decided on inlined path segments)")
+					} else if s&1 != 0 {
+						c.fail(rule, key, c.P.instrPos(b.Instrs[len(b.Instrs)-1]), name+" can return without ShutdownInitiated() on "+r.lcPath+" ("+why+"): ShuttingDown() stays open, every API call blocks instead of returning ErrNotRunning, parents waiting on Done() are released while the actor still looks alive")
+					} else {
+						c.fail(rule, key, c.P.instrPos(b.Instrs[len(b.Instrs)-1]), name+" can call ShutdownInitiated() twice on "+r.lcPath+" before returning ("+why+"): the second call panics")
+					}
 				}
 			}
 		}
@@ -254,7 +259,11 @@ func checkLifecycleOnce(c *Ctx, runs []*runInfo) {
 			if !reachesInitiate(l.Header, r.lcPath) {
 				continue
 			}
-			c.check(back&^1 == 0, rule, fmt.Sprintf("%s/loop@%s-continues-only-uninitiated", name, l.Header.Comment), c.P.fnPos(f), "", name+" can continue its loop after ShutdownInitiated(): the next shutdown request would call it again and panic, and requests keep being served by a stopping actor")
+			okLoop := back&^1 == 0
+			if !okLoop {
+				okLoop, _ = onceBySegments(c, f, r.lcPath)
+			}
+			c.check(okLoop, rule, fmt.Sprintf("%s/loop@%s-continues-only-uninitiated", name, l.Header.Comment), c.P.fnPos(f), "", name+" can continue its loop after ShutdownInitiated(): the next shutdown request would call it again and panic, and requests keep being served by a stopping actor")
 		}
 		if nret == 0 {
 			c.fail(rule, name+"/has-return", c.P.fnPos(f), name+" has no reachable return")
@@ -392,9 +401,34 @@ func singleStoreCap(a *ssa.Alloc, depth int) (int64, bool) {
 
 // derivedFromReceive: v is (a field of) a value received from a channel in
 // this function (select receive slot or plain receive).
+var curProg *Prog // set by loadProg; lets value-origin helpers look at call sites
+
 func derivedFromReceive(v ssa.Value) bool {
 	for i := 0; i < 6; i++ {
 		switch x := v.(type) {
+		case *ssa.Parameter:
+			// a helper's parameter: every call site passes a value derived from a receive
+			fn := x.Parent()
+			if curProg == nil || fn == nil {
+				return false
+			}
+			idx := -1
+			for k, p := range fn.Params {
+				if p == x {
+					idx = k
+				}
+			}
+			cs := curProg.callersOf(fn)
+			if idx < 0 || len(cs) == 0 {
+				return false
+			}
+			for _, s := range cs {
+				call, ok := s.In.(*ssa.Call)
+				if !ok || s.Kind != "call" || idx >= len(call.Call.Args) || !derivedFromReceive(call.Call.Args[idx]) {
+					return false
+				}
+			}
+			return true
 		case *ssa.Extract:
 			if _, ok := x.Tuple.(*ssa.Select); ok && x.Index >= 2 {
 				return true
@@ -436,7 +470,6 @@ func buildInventory(c *Ctx, rels []string, runs []*runInfo) []*blockSite {
 	}
 	// the ticker's run: defer close(t.donech)
 	tickerLike := map[*ssa.Function]bool{}
-	var sites []*blockSite
 	for _, rel := range rels {
 		for _, f := range c.P.SrcFuncs(rel) {
 			for _, in := range f.Blocks[0].Instrs {
@@ -446,6 +479,30 @@ func buildInventory(c *Ctx, rels []string, runs []*runInfo) []*blockSite {
 					}
 				}
 			}
+		}
+	}
+	// private helpers that only ever run synchronously inside an actor's run function are
+	// part of that actor (a loop moved into `serve()` is still the actor's loop)
+	for _, rel := range rels {
+		for _, f := range c.P.SrcFuncs(rel) {
+			if isRun[f] == nil && !tickerLike[f] {
+				continue
+			}
+			for g := range c.P.ownerClosure(f) {
+				if g == f || isRun[g] != nil || tickerLike[g] {
+					continue
+				}
+				if isRun[f] != nil {
+					isRun[g] = isRun[f]
+				} else {
+					tickerLike[g] = true
+				}
+			}
+		}
+	}
+	var sites []*blockSite
+	for _, rel := range rels {
+		for _, f := range c.P.SrcFuncs(rel) {
 			for _, b := range f.Blocks {
 				for _, in := range b.Instrs {
 					switch x := in.(type) {
@@ -509,7 +566,7 @@ func buildInventory(c *Ctx, rels []string, runs []*runInfo) []*blockSite {
 						switch {
 						case func() bool { cp, ok := makeChanCap(x.X, 0); return ok && cp >= 1 }():
 							s.Class, s.Why = "K3", "receive of the reply on a buffered channel made in this function"
-						case m == "Done" || m == "done" || valPath(x.X) == "donech":
+						case m == "Done" || m == "done" || valPath(x.X) == "donech" || isRun[f] != nil && isDoneChanType(x.X.Type()):
 							s.Class, s.Why = "K6", "join-wait (justified by T-WAIT)"
 						case m == "Events" && x.CommaOk && inLoop(f, b):
 							s.Class, s.Why = "K1", "range over the parent's event channel (ends when it closes)"
@@ -543,6 +600,16 @@ func buildInventory(c *Ctx, rels []string, runs []*runInfo) []*blockSite {
 		}
 	}
 	return sites
+}
+
+// isDoneChanType: chan struct{} in any direction (a pure completion signal).
+func isDoneChanType(t types.Type) bool {
+	ch, ok := t.Underlying().(*types.Chan)
+	if !ok {
+		return false
+	}
+	st, ok := ch.Elem().Underlying().(*types.Struct)
+	return ok && st.NumFields() == 0
 }
 
 func checkBlockingInventory(c *Ctx, rels []string, runs []*runInfo, floor int) []*blockSite {
@@ -914,6 +981,14 @@ func checkJoinWaits(c *Ctx, sites []*blockSite, runs []*runInfo, kids childTable
 			why = "lifetime tie: this goroutine exists to release resources when " + target + ", the object its parent function returns to the caller, is done"
 		}
 		key := fnName(f) + "/wait-for/" + target
+		if why == "" && lcPath != "" {
+			// second opinion on inlined path segments
+			if seg := waitsBySegments(c, f, lcPath, kids); seg != nil {
+				if v, seen := seg[s.In]; seen && v == "" {
+					why = "justified on every inlined path segment"
+				}
+			}
+		}
 		var have []string
 		for k := range fs {
 			have = append(have, k)
